@@ -52,6 +52,21 @@ func (c compositeMatcher) Matches(request *heimdall.Request, keys, values []stri
 	return nil
 }
 
+// anyOfMatcher matches if it is empty, or if at least one of its matchers matches.
+type anyOfMatcher []RouteMatcher
+
+func (a anyOfMatcher) Matches(request *heimdall.Request, keys, values []string) error {
+	var err error
+
+	for _, matcher := range a {
+		if err = matcher.Matches(request, keys, values); err == nil {
+			return nil
+		}
+	}
+
+	return err
+}
+
 type schemeMatcher string
 
 func (s schemeMatcher) Matches(request *heimdall.Request, _, _ []string) error {
